@@ -925,7 +925,7 @@ def williamson(V, tol=1e-11):
 
     Returns:
         tuple[array,array]: ``(Db, S)`` where ``Db`` is a diagonal matrix
-            and ``S`` is a symplectic matrix such that :math:`V = S^T Db S`
+            and ``S`` is a symplectic matrix such that :math:`V = S Db S^T`
     """
     (n, m) = V.shape
 
